@@ -46,3 +46,25 @@ def clear_yielding(events, physical_address):
     """processor hook of the base executor, as the base class defines it: one yield per cleared qubit (C13 interleaving)"""
     events.append(("clear", physical_address))
     yield None
+
+
+class QueueSock:
+    """stand-in endpoint for the broadcast-channel contract: a queue of pending messages; non-blocking receive pops the head or
+    reports emptiness (the contract of ThreadSocket.recv(block=False), proved separately)"""
+    PENDING = {}          # remote name -> list of pending messages (set by the obligation before the channel is built)
+    SENT = []
+
+    def __init__(self, app_name, remote_app_name, **kwargs):
+        self.app_name = app_name
+        self.remote_app_name = remote_app_name
+        self.queue = QueueSock.PENDING.get(remote_app_name, [])
+        self.polls = 0
+
+    def send(self, msg):
+        QueueSock.SENT.append((self.remote_app_name, msg))
+
+    def recv(self, block=True, timeout=None, maxsize=None):
+        self.polls += 1
+        if len(self.queue) == 0:
+            raise RuntimeError("No message to receive")
+        return self.queue.pop(0)
